@@ -236,8 +236,8 @@ def r08_5_record_layout(chk):
     ix = chk.ix
     rb = row_body(chk)
     slots = A(SELF, "_slots")
-    ok = len(rb.pieces) == 1 and rb.pieces[0][0] == slots and rb.pieces[0][1] is not None and \
-        is_call(rb.pieces[0][2], "tobytes") and contains(rb.pieces[0][2], rb.pieces[0][1]) and not rb.tail
+    ok = len(rb.pieces) >= 1 and not rb.tail and all(
+        p[0] == slots and p[1] is not None and is_call(p[2], "tobytes") and contains(p[2], p[1]) for p in rb.pieces)
     chk.require(ok, "R08.5", "field-wise-serialisation",
                 "the row is not serialised slot by slot (serialising the whole structured row would also write the "
                 "padding / hidden bytes of a non-packed source layout)", rb.func.where)
